@@ -184,6 +184,16 @@ def run(ctx):
                     p = sc.write(body, EXT[lg])
                     jobs.append((p, dcfg, lg, "open-at-eof", {"lang": lg, "opener": op.decode("latin1"), "mutation": "open-at-eof",
                                                                "input": body.decode("latin1")}))
+        # fixed universe: stray / unbalanced / malformed preprocessor directives in every language that has them
+        STRAY = [b"#else\n", b"#elif X\n", b"#endif\n", b"#else\n#endif\n", b"#if A\n#else\n#else\n#endif\n", b"#if A\n#elif\n", b"#if\n",
+                 b"#endif\n#if B\n", b"#region\n#endregion\n#endregion\n", b"#define\n", b"#include\n", b"#\n", b"# 12 \"f\"\n", b"#elif A\n#else\n#endif\n#endif\n"]
+        for lg in sorted(EXT):
+            if lg in ("JAVA", "ECMA"):
+                continue
+            for st in STRAY:
+                for body in (st, b"int a;\n" + st + b"int b;\n", b"void f() {\n" + st + b"}\n"):
+                    p = sc.write(body, EXT[lg])
+                    jobs.append((p, dcfg, lg, "stray-directive", {"lang": lg, "mutation": "stray-directive", "input": body.decode("latin1")}))
         n = (6000 if thorough else 1400) + len(jobs)
         srcs = pairs[:(600 if thorough else 200)]
         nfixed = 0 if thorough else 1200 + len(jobs)
@@ -248,6 +258,40 @@ def run(ctx):
                                   "argv": "uncrustify -c <config> -l %s -f <input>%s" % (lg, " -q" if quiet else "")},
                                  key=key, found_input=True):
                     bad += 1
+        # several files in one invocation (per-file state such as keyword tables must not grow without bound)
+        mbad = 0
+        mruns = 0
+        by_lang = {}
+        for name, cfg, inp, lang in pairs[:400]:
+            d = os.path.basename(os.path.dirname(inp))
+            if os.path.getsize(inp) < 20000:
+                by_lang.setdefault(d, []).append(inp)
+        for d, files in sorted(by_lang.items()):
+            for k in range(2 if thorough else 1):
+                group = files[k * 8:k * 8 + 8]
+                if len(group) < 3:
+                    continue
+                gd = os.path.join(sc.dir, "multi-%s-%d" % (d, k))
+                os.makedirs(gd, exist_ok=True)
+                local = []
+                for i, f in enumerate(group):
+                    q = os.path.join(gd, "%d_%s" % (i, os.path.basename(f)))
+                    with open(q, "wb") as fh:
+                        fh.write(open(f, "rb").read())
+                    local.append(q)
+                try:
+                    r = subprocess.run([exe, "-q", "-c", dcfg] + local, stdout=subprocess.PIPE, stderr=subprocess.PIPE, env=env, timeout=4 * TIMEOUT)
+                    rc = r.returncode
+                except subprocess.TimeoutExpired:
+                    rc = "timeout"
+                mruns += 1
+                ctx.case("multi:%s:%d" % (d, k))
+                if rc == "timeout" or (isinstance(rc, int) and (rc < 0 or rc not in DOCUMENTED)):
+                    mbad += 1
+                    ctx.violation("%d files of tests/input/%s in one invocation end with %s" % (len(local), d, "a timeout" if rc == "timeout" else "status %s" % rc),
+                                  {"files": [os.path.relpath(f, common.REPO) for f in group], "argv": "uncrustify -q -c /dev/null f1 f2 ..."},
+                                  key=None, found_input=True)
+        ctx.oblige("exploration: several files in one invocation end with a documented status (%d invocations)" % mruns, mbad == 0, "oracle", "%d" % mbad)
         ctx.oblige("exploration: every run ends with a documented status, no signal/sanitizer report/timeout, nothing on stdout when refused (%d runs)"
                    % len(res), bad == 0, "oracle", "%d failures" % bad)
         ctx.sample({"mutation": res[0][0][3], "rc": res[0][1], "lang": res[0][0][2]})
